@@ -7,7 +7,8 @@ EXTENDS TblOps, Json
 
 CONSTANTS MaxRows,      \* bound on the size of any table
           MaxDepth,     \* bound on the number of operations
-          InitRowsA     \* sizes of the initial A tables
+          InitRowsA,    \* sizes of the initial A tables
+          WithEmptyB    \* whether the second operand may be an empty table
 
 VARIABLES A, B, depth, hist, start
 vars == <<A, B, depth, hist, start>>
@@ -23,7 +24,8 @@ BareTabs == IF 2 \in InitRowsA THEN {Table(<<>>, <<[uid |-> 1, f |-> <<>>], [uid
 InitTabs0 == UNION {{Table(Cols0, [i \in 1..n |-> Row0(i, ks[i])]) : ks \in [1..n -> 0..2]} : n \in InitRowsA}
 (* B: two rows with a subset of A's columns (so that append is allowed) or an extra column *)
 InitTabs == InitTabs0 \cup BareTabs
-InitB == { Table(<<"k", "v">>, <<[uid |-> 11, f |-> [k |-> 1, v |-> 2]], [uid |-> 12, f |-> [k |-> 0, v |-> Null]]>>),
+EmptyB == {Table(<<"k", "v">>, <<>>), Table(<<>>, <<>>)}
+InitB0 == { Table(<<"k", "v">>, <<[uid |-> 11, f |-> [k |-> 1, v |-> 2]], [uid |-> 12, f |-> [k |-> 0, v |-> Null]]>>),
            Table(<<"k", "e">>, <<[uid |-> 13, f |-> [k |-> 2, e |-> 7]]>>) }
 
 Preds == {[op |-> "ge", col |-> "k", c |-> 1], [op |-> "ge", col |-> "k", c |-> 2],
@@ -41,13 +43,14 @@ Ops(a) ==
   \cup {[name |-> "subset_mask", mask |-> m] : m \in [1..NRows(a) -> BOOLEAN]}
   \cup {[name |-> "sort", col |-> c, desc |-> d] : c \in {"k", "v"} \cap ColSet(a), d \in BOOLEAN}
   \cup {[name |-> "sample", n |-> n] : n \in 0..Min2(NRows(a) + 1, 3)}
-  \cup {[name |-> nm] : nm \in {"concat_with", "concat", "append"}}
+  \cup {[name |-> nm] : nm \in {"concat_with", "concat", "append", "append_extra"}}
   \cup {[name |-> "with_feature", new |-> "w", src |-> "k", delta |-> 10]}
   \cup {[name |-> "drop_feature", col |-> c] : c \in {"s", "w"} \cap ColSet(a)}
   \cup {[name |-> "group_by", col |-> c] : c \in {"k", "s"} \cap ColSet(a)}
   \cup {[name |-> "cutby", col |-> "k", bins |-> <<-1, 0, 2>>], [name |-> "cutby", col |-> "v", bins |-> <<0, 1, 2>>]}
   \cup {[name |-> "reject", kind |-> kd] : kd \in RejectKinds}
 
+InitB == IF WithEmptyB THEN InitB0 \cup EmptyB ELSE InitB0
 Init == /\ A \in InitTabs /\ B \in InitB /\ depth = 0 /\ hist = <<>> /\ start = [A |-> A, B |-> B]
 
 Apply(op) == \E o \in Outcomes(op, A, B) :
@@ -65,7 +68,7 @@ View == <<A, B, depth, start>>
 
 (* ------------------------------------------------------------ properties *)
 (* Every row anywhere is an original row: same uid => same original feature values *)
-OrigV(u) == CASE u = 11 -> 2 [] u \in {12, 13} -> Null [] OTHER -> VPat(u)
+OrigV(u) == CASE u = 11 -> 2 [] u \in {12, 13, 14, 15} -> Null [] OTHER -> VPat(u)
 OrigS(u) == IF u > 10 THEN Null ELSE SPat(u)
 RowIntact(r) ==
   \* rows of a table that started without feature columns acquire nulls when they are concatenated with featured rows
@@ -90,5 +93,9 @@ Sandwich == CASE depth = 0 -> hist'[1].name \in {"peek", "group_by", "cutby"}
               [] depth = 1 -> hist'[2].name = "append"
               [] OTHER -> TRUE
 EmitSandwich == Sandwich /\ (depth' = MaxDepth => PrintT(ToJson([init |-> start, prog |-> hist'])))
+(* "derive, then append to the result in place": two-step programmes from every initial table, with empty second operands too *)
+AliasShape == CASE depth = 0 -> hist'[1].name \notin {"reject", "peek", "append", "append_extra", "group_by", "cutby"}
+                [] OTHER -> hist'[2].name = "append_extra"
+EmitAlias == AliasShape /\ (depth' = MaxDepth => PrintT(ToJson([init |-> start, prog |-> hist'])))
 EmitStep == PrintT(ToJson([A |-> A, B |-> B, op |-> hist'[Len(hist')]]))
 =============================================================================
